@@ -746,8 +746,8 @@ func cmdC15(args []string) {
 // allOf of an unreferenced definition names is renamed (the composing definition sorts before its base and after it);
 // a definition used by a request body and by a response; a parameter moved from the path item to the operation
 var c14Crafted = [][2]string{{
-	`{"swagger":"2.0","info":{"title":"t","version":"1"},"paths":{},"definitions":{"Cat":{"allOf":[{"$ref":"#/definitions/Pet"},{"type":"object","properties":{"claws":{"type":"integer"}}}]},"Pet":{"type":"object","properties":{"name":{"type":"string"}}},"Zebra":{"allOf":[{"$ref":"#/definitions/Horse"},{"type":"object","properties":{"stripes":{"type":"integer"}}}]},"Horse":{"type":"object","properties":{"name":{"type":"string"}}}}}`,
-	`{"swagger":"2.0","info":{"title":"t","version":"1"},"paths":{},"definitions":{"Cat":{"allOf":[{"$ref":"#/definitions/Animal"},{"type":"object","properties":{"claws":{"type":"integer"}}}]},"Animal":{"type":"object","properties":{"name":{"type":"string"}}},"Zebra":{"allOf":[{"$ref":"#/definitions/Equid"},{"type":"object","properties":{"stripes":{"type":"integer"}}}]},"Equid":{"type":"object","properties":{"name":{"type":"string"}}}}}`,
+	`{"swagger":"2.0","info":{"title":"t","version":"1"},"paths":{},"definitions":{"Cat":{"allOf":[{"$ref":"#/definitions/Pet"}],"properties":{"claws":{"type":"integer"}}},"Pet":{"type":"object","properties":{"name":{"type":"string"}}},"Zebra":{"allOf":[{"$ref":"#/definitions/Horse"},{"type":"object","properties":{"stripes":{"type":"integer"}}}]},"Horse":{"type":"object","properties":{"name":{"type":"string"}}}}}`,
+	`{"swagger":"2.0","info":{"title":"t","version":"1"},"paths":{},"definitions":{"Cat":{"allOf":[{"$ref":"#/definitions/Animal"}],"properties":{"claws":{"type":"integer"}}},"Animal":{"type":"object","properties":{"name":{"type":"string"}}},"Zebra":{"allOf":[{"$ref":"#/definitions/Equid"},{"type":"object","properties":{"stripes":{"type":"integer"}}}]},"Equid":{"type":"object","properties":{"name":{"type":"string"}}}}}`,
 }, {
 	`{"swagger":"2.0","info":{"title":"t","version":"1"},"paths":{"/pets/{id}":{"parameters":[{"name":"id","in":"path","required":true,"type":"string"},{"name":"trace","in":"header","type":"string"}],"get":{"operationId":"getPet","responses":{"200":{"description":"ok","schema":{"$ref":"#/definitions/Pet"}}}},"put":{"operationId":"putPet","parameters":[{"name":"body","in":"body","schema":{"$ref":"#/definitions/Pet"}}],"responses":{"204":{"description":"done"}}}}},"definitions":{"Pet":{"type":"object","properties":{"name":{"type":"string"},"tag":{"type":"string"}}}}}`,
 	`{"swagger":"2.0","info":{"title":"t","version":"1"},"paths":{"/pets/{id}":{"parameters":[{"name":"id","in":"path","required":true,"type":"string"}],"get":{"operationId":"getPet","parameters":[{"name":"trace","in":"header","type":"string"}],"responses":{"200":{"description":"ok","schema":{"$ref":"#/definitions/Pet"}}}},"put":{"operationId":"putPet","parameters":[{"name":"body","in":"body","schema":{"$ref":"#/definitions/Pet"}}],"responses":{"204":{"description":"done"}}}}},"definitions":{"Pet":{"type":"object","required":["name"],"properties":{"name":{"type":"string"}}}}}`,
